@@ -123,6 +123,40 @@ fn make(kind: &str, par: &Value, conc: &Conc, cmd: Option<Command>) -> Machine {
                 get: Box::new(move || (obs_f32(s2.borrow().get()), None)),
             }
         }
+        "CmdPIDF" => {
+            // the same controller, following a scripted command getter from the start
+            let inp = Scripted::<State>::new();
+            let folg = Scripted::<Command>::new();
+            let g = &par["gains"];
+            let kv = PositionDerivativeDependentPIDKValues::new(gains(&g[0], tau), gains(&g[1], tau), gains(&g[2], tau));
+            let c0 = cmd.unwrap_or_else(|| cmd_of(&par["cmd"], conc));
+            let mut pid = CommandPID::new(inp.getter.clone(), c0, kv);
+            pid.follow(Reference::from_rc_ref_cell(Rc::new(RefCell::new(CellGetter { cell: folg.cell.clone(), reads: folg.reads.clone() })) as Rc<RefCell<dyn Getter<Command, E>>>));
+            let st = Rc::new(RefCell::new(pid));
+            let (s1, s2, s3) = (st.clone(), st.clone(), st.clone());
+            let (inp2, fol2) = (inp.cell.clone(), folg.cell.clone());
+            Machine {
+                feed: Box::new(move |ev, t, c| match s(ev, "c") {
+                    "fol" => {
+                        let o = &ev["o"];
+                        *fol2.borrow_mut() = match s(o, "c") {
+                            "some" => Ok(Some(Datum::new(t, cmd_of(o, c)))),
+                            "none" => Ok(None),
+                            _ => Err(mk_err(i(o, "e"))),
+                        };
+                    }
+                    "some" => {
+                        *inp2.borrow_mut() = Ok(Some(Datum::new(t, State::new_raw(c.val(&ev["v"][0]), c.val(&ev["v"][1]), c.val(&ev["v"][2])))))
+                    }
+                    "none" => *inp2.borrow_mut() = Ok(None),
+                    "err" => *inp2.borrow_mut() = Err(mk_err(i(ev, "e"))),
+                    _ => {}
+                }),
+                update: Box::new(move || s1.borrow_mut().update()),
+                set: Box::new(move |c| s3.borrow_mut().set(c)),
+                get: Box::new(move || (obs_f32(s2.borrow().get()), None)),
+            }
+        }
         "EWMA" => {
             let inp = Scripted::<f32>::new();
             let stream = EWMAStream::<f32, _, E>::new(inp.getter.clone(), rat(&par["s"]) as f32);
@@ -287,7 +321,7 @@ fn factors(kind: &str, cmdk: i64, conc: &Conc) -> Vec<f64> {
         "AccToState" => vec![v * tau * tau, v * tau, v],
         "VelToState" => vec![v * tau, v, v / tau],
         "PosToState" => vec![v, v / tau, v / (tau * tau)],
-        "CmdPID" => vec![v * tau.powi(cmdk as i32)],
+        "CmdPID" | "CmdPIDF" => vec![v * tau.powi(cmdk as i32)],
         _ => vec![v],
     }
 }
@@ -334,8 +368,10 @@ fn replay(beh: &Value, line: usize, conc: &Conc, rep: &mut Report, structure_onl
     // C04: the same controller assembled from primitive streams
     let mut composite = if kind == "PID" && !structure_only { Some(make_composite(par, conc)) } else { None };
     let ignores_absent = matches!(kind, "EWMA" | "EWMAQ" | "MA" | "MAQ" | "AccToState" | "VelToState" | "PosToState");
-    let mut cur_cmd: Option<Command> = if kind == "CmdPID" { Some(cmd_of(&par["cmd"], conc)) } else { None };
-    let mut cmdk = if kind == "CmdPID" { i(&par["cmd"], "k") } else { 0 };
+    let is_cmd = kind == "CmdPID" || kind == "CmdPIDF";
+    let mut cur_cmd: Option<Command> = if is_cmd { Some(cmd_of(&par["cmd"], conc)) } else { None };
+    let mut cmdk = if is_cmd { i(&par["cmd"], "k") } else { 0 };
+    let mut cur_fol: Value = json!({"c": "none"});
     // largest magnitude predicted anywhere in the behaviour: scale of the tolerance
     let mut mag = 0f64;
     for st in steps {
@@ -350,11 +386,18 @@ fn replay(beh: &Value, line: usize, conc: &Conc, rep: &mut Report, structure_onl
         let t = conc.time(i(st, "t"));
         let is_set = s(ev, "c") == "set";
         let reset = st["reset"].as_bool().unwrap_or(false);
+        let is_fol = s(ev, "c") == "fol";
         if reset {
             twin = make(kind, par, conc, cur_cmd);
+            if kind == "CmdPIDF" {
+                (twin.feed)(&json!({"c": "fol", "o": cur_fol}), t, conc); // the fresh controller follows the same getter
+            }
         }
         let drive = |m: &mut Machine| -> Result<NothingOrError<E>, String> {
-            if is_set {
+            if is_fol {
+                (m.feed)(ev, t, conc);
+                Ok(Ok(()))
+            } else if is_set {
                 let c = cmd_of(ev, conc);
                 catch(|| (m.set)(c))
             } else {
@@ -375,6 +418,16 @@ fn replay(beh: &Value, line: usize, conc: &Conc, rep: &mut Report, structure_onl
         if is_set {
             cur_cmd = Some(cmd_of(ev, conc));
             cmdk = i(ev, "k");
+        }
+        if is_fol {
+            cur_fol = ev["o"].clone();
+        } else if kind == "CmdPIDF" && cur_fol["c"] == "some" {
+            // the update forwarded the followed command to set()
+            cur_cmd = Some(cmd_of(&cur_fol, conc));
+            cmdk = i(&cur_fol, "k");
+        }
+        if r.as_ref().map(|x| x.is_err()).unwrap_or(false) && kind == "CmdPIDF" && cur_fol["c"] == "err" {
+            // aborted update: the followed getter failed before anything was read
         }
         let rt = drive(&mut twin);
         let skip_fed = !(ignores_absent && s(ev, "c") == "none");
